@@ -1,6 +1,6 @@
 (* C07  Expression trees follow the C/C++ operator grammar: property statements only. *)
 From Coq Require Import List NArith Bool.
-From CV Require Import Ast.Defs Ast.Main1 Ast.Main2 Ast.NoDecl Ast.Main3 Ast.Main4 Ast.Labels.
+From CV Require Import Ast.Defs Ast.Main1 Ast.Main2 Ast.NoDecl Ast.Main3 Ast.Main4 Ast.Labels Ast.Final.
 Import ListNotations.
 Local Open Scope N_scope.
 
@@ -152,9 +152,7 @@ Theorem C07_parse_render_canon_partial :
     frag5 e = true -> wf e = true -> mid_ok e = true -> decl_like (render e) = false ->
     prep (2 * length (render e ++ [semi])) (render e ++ [semi]) = render e ++ [semi] ->
     parse cpp (render e) = Some (tree_of e).
-Proof.
-  intros cpp e0 e Hf Hw Hm Hd Hp. apply parse_render_stage5; try assumption. apply labels_ok_canon.
-Qed.
+Proof. exact parse_render_canon. Qed.
 Print Assumptions C07_parse_render_canon_partial.
 
 (* r = d + ( a * f ( b , c ) )   with every identifier a declared variable (f: a function pointer).
